@@ -93,6 +93,14 @@ def r1_stages(ctx):
                 own, reasons = _own_verdict_reasons(ix, bc, target)
                 scope = _scope_of(target)
                 data_level = scope == "DATA" or not own or target.name == "run_checks"
+                # a schema-scope check that hands the data object itself to <dtype>.check(...) inspects values
+                # (Date, Decimal, typing generics, python-object dtypes): it has to see the requested rows only
+                if not data_level and len(target.positional) > 1:
+                    dparam = target.positional[1]
+                    if any(callee_last(c) == "check" and isinstance(c.func, ast.Attribute) and "dtype" in txt(c.func.value)
+                           and any(isinstance(a, ast.Name) and a.id == dparam for a in list(c.args) + [k.value for k in c.keywords])
+                           for c in calls_in(target.node, nested=True)):
+                        data_level = True
                 a0 = Expander(f.node).expand(args[0])
                 on_sub = first in subs or (isinstance(a0, ast.Call) and callee_last(a0) == "subsample")
                 if on_sub and len(first) > 40:
